@@ -98,24 +98,47 @@ def ids(st_v):
     return [st, [idx(y) for y in v] if st == 'ok' else []]
 
 
+def skw(sim, salt=0):
+    """simulate_root as keyword: True when set; when not set, left out (the documented
+    default) for even salt and passed as False for odd salt"""
+    if sim:
+        return {'simulate_root': True}
+    return {} if salt % 2 == 0 else {'simulate_root': False}
+
+
 def battery13(g, w, ss):
     n = g['n']
     o = {'paths': [], 'mind': [], 'maxd': [], 'pairs': []}
     for sim in (False, True):
         for x in range(1, n + 1):
-            st, ps = call(ss[x].hypernym_paths, simulate_root=sim)
+            st, ps = call(ss[x].hypernym_paths, **skw(sim, x))
             o['paths'].append([x, sim, st, [[idx(y) for y in p] for p in ps]
                                if st == 'ok' else []])
-            st, d = call(ss[x].min_depth, simulate_root=sim)
+            st, d = call(ss[x].min_depth, **skw(sim, x + 1))
             o['mind'].append([x, sim, st, d if st == 'ok' else -1])
-            st, d = call(ss[x].max_depth, simulate_root=sim)
+            st, d = call(ss[x].max_depth, **skw(sim, x))
             o['maxd'].append([x, sim, st, d if st == 'ok' else -1])
         for a in range(1, n + 1):
             for b in range(1, n + 1):
-                ch = ids(call(ss[a].common_hypernyms, ss[b], simulate_root=sim))
-                lch = ids(call(ss[a].lowest_common_hypernyms, ss[b], simulate_root=sim))
-                sp = ids(call(ss[a].shortest_path, ss[b], simulate_root=sim))
+                ch = ids(call(ss[a].common_hypernyms, ss[b], **skw(sim, a + b)))
+                lch = ids(call(ss[a].lowest_common_hypernyms, ss[b], **skw(sim, a + b + 1)))
+                sp = ids(call(ss[a].shortest_path, ss[b], **skw(sim, a)))
                 o['pairs'].append([a, b, sim] + ch + lch + sp)
+    # the same through the functions of wn.taxonomy, with their default arguments
+    T = wn.taxonomy
+    for x in range(1, n + 1):
+        st, ps = call(T.hypernym_paths, ss[x])
+        o['paths'].append([x, False, st, [[idx(y) for y in p] for p in ps] if st == 'ok' else []])
+        st, d = call(T.min_depth, ss[x])
+        o['mind'].append([x, False, st, d if st == 'ok' else -1])
+        st, d = call(T.max_depth, ss[x])
+        o['maxd'].append([x, False, st, d if st == 'ok' else -1])
+    for a in range(1, n + 1):
+        for b in range(1, n + 1):
+            if (a + 2 * b) % 3 == 0:
+                o['pairs'].append([a, b, False] + ids(call(T.common_hypernyms, ss[a], ss[b]))
+                                  + ids(call(T.lowest_common_hypernyms, ss[a], ss[b]))
+                                  + ids(call(T.shortest_path, ss[a], ss[b])))
     o['bypos'] = []
     for pos in sorted(set(g['pos']) | {'n', 'a', 's'}):
         r = ids(call(wn.taxonomy.roots, w, pos=pos))
@@ -149,13 +172,13 @@ def battery14(g, w, ss):
     for sim in (False, True):
         for a in range(1, n + 1):
             for b in range(1, n + 1):
-                p = val(call(wn.similarity.path, ss[a], ss[b], simulate_root=sim))
-                wu = val(call(wn.similarity.wup, ss[a], ss[b], simulate_root=sim))
+                p = val(call(wn.similarity.path, ss[a], ss[b], **skw(sim, a + b)))
+                wu = val(call(wn.similarity.wup, ss[a], ss[b], **skw(sim, a)))
                 o['sim'].append([a, b, sim] + p + wu)
                 for md in mds:
                     # lch = -log q  ->  q
                     o['lch'].append([a, b, sim, md] + val(
-                        call(wn.similarity.lch, ss[a], ss[b], md, simulate_root=sim),
+                        call(wn.similarity.lch, ss[a], ss[b], md, **skw(sim, b)),
                         lambda v: math.exp(-v)))
     o['ic'] = []
     for wi, weights in enumerate(g.get('weights', [])):
@@ -190,8 +213,11 @@ def battery15(g, w, ss):
     o = {'freq': [], 'tot': [], 'prob': [], 'meta': []}
     for ci, c in enumerate(g.get('corpora', [])):
         sm = Fraction(c['smoothing'][0], c['smoothing'][1])
-        st, res = call(wn.ic.compute, c['tokens'], w, distribute_weight=c['distribute'],
-                       smoothing=float(sm))
+        if c.get('defaults'):      # the documented defaults: distribute_weight=True, smoothing=1.0
+            st, res = call(wn.ic.compute, c['tokens'], w)
+        else:
+            st, res = call(wn.ic.compute, c['tokens'], w, distribute_weight=c['distribute'],
+                           smoothing=float(sm))
         o['meta'].append([ci, st, sorted(k for k in res) if st == 'ok' else []])
         if st != 'ok':
             continue
@@ -216,7 +242,8 @@ def battery15_load(g, base):
     n = g['n']
     lid = f"i{g['id']}"
     lex = lmfgen.mini_lexicon(lid)
-    lex['synsets'] = [{'id': f'{lid}-{x:08}-{g["pos"][x - 1]}', 'ili': '',
+    # offsets with several digits (x * 37): the file format is <offset><pos letter>
+    lex['synsets'] = [{'id': f'{lid}-{x * 37:08}-{g["pos"][x - 1]}', 'ili': '',
                        'partOfSpeech': g['pos'][x - 1], 'meta': None} for x in range(1, n + 1)]
     p = base / 'iclex.xml'
     p.write_text(lmfgen.to_xml({'lmf_version': '1.0', 'lexicons': [lex]}), encoding='utf-8')
@@ -227,7 +254,7 @@ def battery15_load(g, base):
         path = base / f'ic{fi}.dat'
         lines = ['wnver::eOS9lXC6GvMWznF1wkZofDdtbBU']
         for x, weight, root in f['rows']:
-            lines.append(f'{x}{g["pos"][x - 1] if g["pos"][x - 1] != "s" else "a"} {weight}'
+            lines.append(f'{x * 37}{g["pos"][x - 1] if g["pos"][x - 1] != "s" else "a"} {weight}'
                          + (' ROOT' if root else ''))
         path.write_text('\n'.join(lines) + '\n')
         st, res = call(wn.ic.load, path, w)
@@ -237,7 +264,7 @@ def battery15_load(g, base):
                 row['tot'].append([pos] + val(('ok', res[pos][None])))
                 for k, v_ in res[pos].items():
                     if k is not None:
-                        row['w'].append([pos, int(k.split('-')[-2])] + val(('ok', v_)))
+                        row['w'].append([pos, int(k.split('-')[-2]) // 37] + val(('ok', v_)))
         out.append(row)
     wn.remove(f'{lid}:1', progress_handler=None)
     return out
